@@ -12,7 +12,7 @@
 From stdpp Require Import gmap list.
 From RecordUpdate Require Import RecordSet.
 Import RecordSetNotations.
-From Aldrin Require Import gen.BrokerConsts Broker.Model Broker.Run Broker.OutKinds Broker.EventProofs
+From Aldrin Require Import gen.BrokerConsts Broker.Model Broker.Run Broker.Wp Broker.OutKinds Broker.EventProofs
   Broker.CallProofs Broker.Inv Broker.InvProofsBase Broker.InvProofsSettle Broker.InvProofsHandle3
   Broker.InvProofsStep Broker.InvProofsOut Broker.InvProofsAlive Broker.InvProofsKeep
   Props.C11_lemmas Props.C03_lemmas.
@@ -43,14 +43,21 @@ Proof. destruct m; reflexivity. Qed.
 Lemma set_mo_id (m : M) : m <| mo := mo m |> = m.
 Proof. destruct m; reflexivity. Qed.
 
+(* Broker/Wp.v declares the model's functions [simpl never]; they are unfolded by these equations *)
+Lemma foldO_nil {A} (f : M -> A -> outcome M) m : foldO f [] m = Done m.
+Proof. reflexivity. Qed.
+Lemma foldO_cons {A} (f : M -> A -> outcome M) x r m :
+  foldO f (x :: r) m = match f m x with Done m' => foldO f r m' | Fail m' => Fail m' | Panic s => Panic s end.
+Proof. reflexivity. Qed.
+
 Lemma guarded_fold_alive (x0 : msg) l : forall m,
   (forall d cs, d ∈ l -> conns (ms m) !! d = Some cs -> cs_alive cs = true) ->
   foldO (fun m (c : conn) => if has m c then send_or_remove m c x0 None else Done m) l m =
   Done (m <| mo := mo m ++ ((fun d => (d, x0, None)) <$> List.filter (connected (ms m)) l) |>).
 Proof.
-  induction l as [|d l IH]; intros m Hal; cbn [foldO List.filter fmap list_fmap].
-  - rewrite app_nil_r, set_mo_id. reflexivity.
-  - unfold has at 1. unfold connected at 1. destruct (conns (ms m) !! d) as [cs|] eqn:Ed.
+  induction l as [|d l IH]; intros m Hal; cbn [List.filter fmap list_fmap].
+  - rewrite foldO_nil, app_nil_r, set_mo_id. reflexivity.
+  - rewrite foldO_cons. unfold has at 1. unfold connected at 1. destruct (conns (ms m) !! d) as [cs|] eqn:Ed.
     + rewrite bool_decide_eq_true_2 by eauto.
       rewrite (send_or_remove_alive m d x0 None cs Ed) by (eapply Hal; [left|exact Ed]).
       rewrite IH by (intros d' cs' Hin; apply Hal; right; exact Hin).
@@ -128,8 +135,8 @@ Lemma step_one_item s e f b m m' :
   step_handler s e f b = Done m -> settle_one m = Some (Done m') -> mw m' = work0 ->
   step s e f b = Done (ms m', mo m').
 Proof.
-  intros Hh H1 Hw. rewrite step_unfold, Hh. destruct (fuel_for_S (ms m)) as (n & ->).
-  cbn [settle]. rewrite H1. rewrite (OutKinds.settle_idle n m' Hw). reflexivity.
+  intros Hh H1 Hw. rewrite step_unfold, Hh. destruct (fuel_for_S m) as (n & ->).
+  rewrite Wp.settle_unfold, H1. rewrite (OutKinds.settle_idle n m' Hw). reflexivity.
 Qed.
 
 Theorem create_service_exact s c cs x serial oc u i ou o f b :
@@ -353,8 +360,8 @@ Qed.
 Lemma oprop_foldO_in {A} (P : M -> Prop) (f : M -> A -> outcome M) l m :
   (forall m a, a ∈ l -> P m -> oprop P (f m a)) -> P m -> oprop P (foldO f l m).
 Proof.
-  revert m. induction l as [|a l IH]; intros m Hf Hm; cbn; [exact Hm|].
-  pose proof (Hf m a (elem_of_list_here _ _) Hm) as Ha. destruct (f m a); cbn in *; auto;
+  revert m. induction l as [|a l IH]; intros m Hf Hm; [exact Hm|]. rewrite foldO_cons.
+  pose proof (Hf m a (elem_of_list_here _ _) Hm) as Ha. destruct (f m a); cbn [oprop] in *; auto;
     apply IH; auto; intros m' a' Hin; apply Hf; right; exact Hin.
 Qed.
 
@@ -410,8 +417,8 @@ Section Kept.
     idtac;
     first
       [ match goal with H : KP ?m |- KP _ => exact H end
-      | match goal with |- KP (push_remove ?x _ _) => change (KP x); leaf_kp end
-      | match goal with |- KP (set _ _ ?x) => change (KP x); leaf_kp end ].
+      | match goal with |- KP (push_remove ?x _ _) => change (KP x) end
+      | match goal with |- KP (set _ _ ?x) => change (KP x) end ].
 
   Lemma remove_listener_kp m x : KP m -> KP (remove_listener m x).
   Proof. intros H. unfold remove_listener. destruct (listeners (ms m) !! x); exact H. Qed.
@@ -448,7 +455,8 @@ Section Kept.
       apply Forall_forall. intros ck' Hin. apply elem_of_list_fmap in Hin as ([k1 s1] & -> & Hin).
       apply elem_of_lfilter in Hin as [Hin Hf]. apply elem_of_map_to_list in Hin. cbn in Hin, Hf |- *.
       apply bool_decide_eq_true in Hf. intros Hc. apply (proj2 Hs) in Hin; [|exact Hc]. subst k1. congruence. }
-    match goal with |- oprop _ (foldO _ ?l ?a >>> _) => generalize dependent l; generalize dependent a; intros m1 H1 l Hl end.
+    match goal with |- oprop _ (foldO _ ?l ?a >>> _) => set (l0 := l) in *; set (m1 := a) in * end.
+    clearbody l0. clearbody m1.
     apply oprop_bind.
     - apply oprop_foldO_in; [|exact H1]. intros m' ck' Hin Hm'. apply remove_service_kp; [|exact Hm'].
       rewrite Forall_forall in Hl. exact (Hl _ Hin).
@@ -515,7 +523,8 @@ Section Kept.
     intros m5 H5.
     match goal with |- oprop _ (foldO _ _ ?a >>> _) => assert (KP a) as H6 end.
     { destruct H5 as [Hs Ho]. split; [cbn; apply svc_kept_subs; exact Hs|exact Ho]. }
-    match goal with |- oprop _ (foldO _ ?l ?a >>> _) => generalize dependent l; generalize dependent a; intros m6 H6 l end.
+    match goal with |- oprop _ (foldO _ ?l ?a >>> _) => set (l0 := l) in *; set (m6 := a) in * end.
+    clearbody l0. clearbody m6.
     apply oprop_bind; [apply oprop_foldO; [intros; apply sc_end_kp; assumption|exact H6]|].
     intros m7 H7. apply oprop_bind; [apply oprop_foldO; [intros; apply sc_end_kp; assumption|exact H7]|].
     intros m8 H8. cbn [oprop]. unfold KP. cbn [ms set]. rewrite sc_aborts_ms. exact H8.
@@ -541,9 +550,329 @@ Section Kept.
 
   Lemma settle_kp fuel : forall m, stays (o_owner o0) m -> KP m -> oprop KP (settle fuel m).
   Proof.
-    induction fuel as [|fuel IH]; intros m Hst H; cbn [settle];
+    induction fuel as [|fuel IH]; intros m Hst H; rewrite Wp.settle_unfold;
       destruct (settle_one m) as [r|] eqn:E; try exact H;
       pose proof (settle_one_kp m r Hst H E) as Hr; pose proof (settle_one_stays _ m r Hst E) as Hs;
       destruct r; cbn in Hr, Hs |- *; trivial; apply IH; assumption.
   Qed.
 End Kept.
+
+(* ================================================================ an accepted CreateService is stored *)
+From Aldrin Require Import Broker.InvProofsHandle2.
+
+Lemma step_message_settle s i c x m s' out :
+  reachable s -> legal s i -> i_ev i = Message c x ->
+  handle (OutKinds.m_init s) c x (i_fresh i) (i_bserial i) = Done m ->
+  step s (Message c x) (i_fresh i) (i_bserial i) = Done (s', out) ->
+  exists m', settle (fuel_for m) m = Done m' /\ s' = ms m' /\ out = mo m' /\
+             MI m /\ shrinks m m' /\ grows m m'.
+Proof.
+  intros Hr Hl He Hh Hs. pose proof (reachable_inv s Hr) as H.
+  destruct (legal_split _ _ Hl) as (L1 & L2 & L3). rewrite He in L3.
+  pose proof (handle_good (OutKinds.m_init s) c x (i_fresh i) (i_bserial i) H eq_refl L1 L2 L3) as Hg.
+  rewrite Hh in Hg. cbn in Hg.
+  apply step_Done in Hs as (m1 & m' & Hh' & Hst & -> & ->).
+  cbn [step_handler] in Hh'. fold (OutKinds.m_init s) in Hh'. rewrite Hh in Hh'. injection Hh' as <-.
+  destruct Hst as [Hst|Hst]; [|exfalso; exact (OutKinds.settle_never_fails _ _ _ Hst)].
+  pose proof (settle_spec (fuel_for m) m Hg) as Hsp. rewrite Hst in Hsp. destruct Hsp as (_ & Hsh & _).
+  pose proof (settle_ogrows (fuel_for m) m) as Hgr. rewrite Hst in Hgr.
+  exists m'. auto 10.
+Qed.
+
+Theorem create_service_stored s i c cs x serial oc u inf ou o s' out :
+  reachable s -> legal s i -> i_ev i = Message c x ->
+  conns s !! c = Some cs -> cs_alive cs = true -> is_create_service cs x serial oc u inf ->
+  obj_by_cookie s oc = Some (ou, o) -> o_owner o = c -> svcs s !! (ou, u) = None ->
+  step s (Message c x) (i_fresh i) (i_bserial i) = Done (s', out) ->
+  head out = Some (c, CreateServiceReply serial (CSOk (i_fresh i)), None) /\
+  svcs s' !! (ou, u) = Some (new_svc (i_fresh i) oc inf) /\
+  objs s' !! ou = Some o /\
+  (exists cs', conns s' !! c = Some cs' /\ cs_alive cs' = true) /\
+  objs s' ⊆ objs s /\
+  (forall k, is_Some (svcs s' !! k) -> k = (ou, u) \/ is_Some (svcs s !! k)).
+Proof.
+  intros Hr Hl He Hc Ha Hx Ho Hown Hno Hs. pose proof (reachable_inv s Hr) as HI.
+  set (m1 := svc_created_machine (OutKinds.m_init s) c serial ou oc u (i_fresh i) inf).
+  assert (Hh : handle (OutKinds.m_init s) c x (i_fresh i) (i_bserial i) = Done m1).
+  { rewrite (handle_create_service _ c cs x serial oc u inf) by assumption.
+    apply (create_service_impl_ok _ c cs serial oc u inf (i_fresh i) ou o); assumption. }
+  destruct (step_message_settle s i c x m1 s' out Hr Hl He Hh Hs) as (m' & Hst & -> & -> & _ & Hsh & Hgr).
+  pose proof (obj_by_cookie_Some _ _ _ _ Ho) as [Hou Hock].
+  assert (Hstay : stays c m1).
+  { split; [exists cs; split; assumption|]. intros sd Hin. cbn in Hin. by apply elem_of_nil in Hin. }
+  assert (Hkp : KP (ou, u) (new_svc (i_fresh i) oc inf) o m1).
+  { split; split.
+    - cbn. apply lookup_insert.
+    - cbn. intros k' sv' Hk' Hck. apply lookup_insert_Some in Hk' as [[<- _]|[_ Hk']]; [reflexivity|].
+      exfalso. exact (fresh_svc s (i_fresh i) k' sv' (proj1 Hl) Hk' Hck).
+    - exact Hou.
+    - cbn. intros u' o' Hu' Hck. exact (iv_uo _ _ _ _ _ HI u' ou o' o Hu' Hou Hck). }
+  rewrite <- Hown in Hstay.
+  pose proof (settle_kp (ou, u) (new_svc (i_fresh i) oc inf) o (conj eq_refl (conj eq_refl eq_refl))
+                (fuel_for m1) m1 Hstay Hkp) as Hk'.
+  pose proof (settle_stays (o_owner o) (fuel_for m1) m1 Hstay) as Hs'.
+  rewrite Hst in Hk', Hs'. cbn in Hk', Hs'. rewrite Hown in Hs'.
+  destruct Hk' as [[Hsv _] [Hob _]]. destruct Hsh as (Hosub & Hsdom & _).
+  split; [eapply grows_head; [|exact Hgr]; reflexivity|]. split; [exact Hsv|]. split; [exact Hob|].
+  split; [exact (proj1 Hs')|]. split; [exact Hosub|].
+  intros k Hk. apply Hsdom in Hk. cbn in Hk. destruct (decide (k = (ou, u))) as [->|Hne]; [by left|].
+  right. by rewrite lookup_insert_ne in Hk.
+Qed.
+
+(* CreateObject: C03_create_object_reply gives the reply and the stored object; in addition the
+   rest of the registry only shrinks (and only by what a removed connection owned) *)
+Theorem create_object_stored s i c cs serial u s' out :
+  reachable s -> legal s i -> i_ev i = Message c (CreateObject serial u) ->
+  conns s !! c = Some cs -> cs_alive cs = true -> objs s !! u = None ->
+  step s (Message c (CreateObject serial u)) (i_fresh i) (i_bserial i) = Done (s', out) ->
+  head out = Some (c, CreateObjectReply serial (COOk (i_fresh i)), None) /\
+  objs s' !! u = Some {| o_cookie := i_fresh i; o_owner := c |} /\
+  (exists cs', conns s' !! c = Some cs' /\ cs_alive cs' = true) /\
+  (forall u', u' <> u -> forall o', objs s' !! u' = Some o' -> objs s !! u' = Some o') /\
+  (forall k, is_Some (svcs s' !! k) -> is_Some (svcs s !! k)).
+Proof.
+  intros Hr Hl He Hc Ha Hu Hs.
+  destruct (create_object_ok_strong s i c cs serial u s' out Hr Hl He Hc Ha Hu Hs) as (H1 & H2 & H3).
+  split; [exact H1|]. split; [exact H2|]. split; [exact H3|].
+  pose proof (handle_create_object_ok (OutKinds.m_init s) c cs serial u (i_fresh i) (i_bserial i) Hc Ha Hu) as Hh.
+  destruct (step_message_settle s i c _ _ s' out Hr Hl He Hh Hs) as (m' & _ & -> & _ & _ & Hsh & _).
+  destruct Hsh as (Hosub & Hsdom & _). split.
+  - intros u' Hne o' Hu'. apply (lookup_weaken _ _ _ _ Hu') in Hosub. cbn in Hosub.
+    by rewrite lookup_insert_ne in Hosub.
+  - intros k Hk. apply Hsdom in Hk. exact Hk.
+Qed.
+
+(* ================================================================ an object stays while its owner does *)
+(* handlers: whoever sends, whatever it sends — except the owner's DestroyObject for this very
+   cookie (InvProofsKeep.handle_keeps covers senders other than the owner) *)
+Ltac leaf_ko :=
+  idtac;
+  first
+    [ match goal with H : keeps_obj ?u ?o ?m |- keeps_obj ?u ?o _ => exact H end
+    | match goal with |- keeps_obj ?u ?o (push_remove ?x _ _) => change (keeps_obj u o x) end
+    | match goal with |- keeps_obj ?u ?o (set _ _ ?x) => change (keeps_obj u o x) end ].
+
+Ltac hk_step :=
+  first
+    [ match goal with
+      | |- oprop _ (remove_service _ _) => apply remove_service_keeps
+      | |- oprop _ (remove_end _ _ _) => apply remove_end_keeps
+      | |- keeps_obj _ _ (remove_listener _ _) => apply remove_listener_keeps
+      end
+    | prop_step leaf_ko ].
+
+Lemma handle_keeps_own u o m c x f b :
+  (forall serial, x <> DestroyObject serial (o_cookie o)) ->
+  keeps_obj u o m -> oprop (keeps_obj u o) (handle m c x f b).
+Proof.
+  intros Hx H. unfold handle. destruct (conns (ms m) !! c) as [cs|] eqn:Hc; [|exact H].
+  destruct x;
+    unfold gate, ver_of, create_service_impl, call_impl; cbv zeta beta; try (rewrite Hc; cbn [fmap option_fmap option_map]);
+    try (solve [repeat hk_step; try assumption]).
+  - (* CreateObject: inserts only at a uuid that is not live *)
+    destruct (bool_decide_reflect (is_Some (objs (ms m) !! u0))) as [|Hn]; [repeat hk_step; assumption|].
+    assert (u0 <> u) as Hne by (intros ->; apply Hn; unfold keeps_obj in H; rewrite H; eauto).
+    apply oprop_bind; [repeat hk_step; assumption|]. intros m1 H1. cbn [oprop].
+    unfold keeps_obj in *. cbn. by rewrite lookup_insert_ne.
+  - (* DestroyObject of another cookie *)
+    destruct (obj_by_cookie (ms m) c0) as [[u' o']|] eqn:E; [|repeat hk_step; assumption].
+    destruct (negb (bool_decide (o_owner o' = c))); [repeat hk_step; assumption|].
+    apply oprop_bind; [repeat hk_step; assumption|]. intros m1 H1.
+    apply remove_object_keeps; [exact H1|]. intros u1 o1 E1 ->.
+    apply obj_by_cookie_Some in E1 as [E1 E2]. unfold keeps_obj in H1. rewrite H1 in E1. injection E1 as <-.
+    apply (Hx serial). by rewrite E2.
+  - (* ClaimChannelEnd *)
+    match goal with |- context [chans (ms m) !! ?k] => destruct (chans (ms m) !! k) as [ch|] end;
+      [|repeat hk_step; assumption].
+    match goal with |- context [chan_claim ch c ?e] => destruct (chan_claim ch c e) as [r|ch' other r|site] end;
+      [repeat hk_step; assumption| |exact I].
+    match goal with |- context [send ?mm c ?x None] => destruct (send mm c x None) as [m2|m2|] eqn:Es end; [| |exact I].
+    + apply send_Done in Es as [-> _]. repeat hk_step; assumption.
+    + apply send_Fail in Es as [-> _]. apply oprop_refail. repeat hk_step; assumption.
+Qed.
+
+Lemma push_all_keeps u o (l : list (conn * cstate)) m :
+  keeps_obj u o m -> keeps_obj u o (foldr (fun p m => push_remove m p.1 true) m l).
+Proof. intros H. induction l as [|p l IH]; cbn; [exact H|exact IH]. Qed.
+
+(* one step: the object is still there unless its owner asked for its destruction or is no
+   longer connected *)
+Theorem object_persists s i u o s' out :
+  reachable s -> legal s i -> objs s !! u = Some o ->
+  (forall serial, i_ev i <> Message (o_owner o) (DestroyObject serial (o_cookie o))) ->
+  step s (i_ev i) (i_fresh i) (i_bserial i) = Done (s', out) ->
+  is_Some (conns s' !! o_owner o) ->
+  objs s' !! u = Some o.
+Proof.
+  intros Hr Hl Hu Hx Hs Hc'. pose proof (reachable_inv s Hr) as HI.
+  destruct (legal_split _ _ Hl) as (L1 & L2 & L3).
+  destruct (handler_good s (i_ev i) (i_fresh i) (i_bserial i) HI L1 L2 L3) as (m & Hm & HMI).
+  assert (keeps_obj u o m) as Hk.
+  { unfold handler_of in Hm. destruct (i_ev i) as [c ver|c|c x| | |c|c].
+    - destruct (conns s !! c); [discriminate|]. injection Hm as <-. exact Hu.
+    - injection Hm as <-. exact Hu.
+    - assert (oprop (keeps_obj u o) (handle {| ms := s; mw := work0; mo := [] |} c x (i_fresh i) (i_bserial i))) as Hh.
+      { destruct (decide (c = o_owner o)) as [->|Hne].
+        - apply handle_keeps_own; [|exact Hu]. intros serial ->. exact (Hx serial eq_refl).
+        - apply handle_keeps; [exact Hu|congruence]. }
+      destruct (handle _ c x (i_fresh i) (i_bserial i)) as [m1|m1|]; [| |discriminate]; injection Hm as <-; exact Hh.
+    - injection Hm as <-. change (keeps_obj u o (foldr (fun p m => push_remove m p.1 true)
+                                    {| ms := s; mw := work0; mo := [] |} (map_to_list (conns s)))).
+      apply push_all_keeps. exact Hu.
+    - injection Hm as <-. exact Hu.
+    - injection Hm as <-. exact Hu.
+    - injection Hm as <-. destruct (conns s !! c); exact Hu. }
+  rewrite step_step_fuel in Hs. unfold step_fuel in Hs. rewrite Hm in Hs.
+  pose proof (settle_spec (fuel_for m) m HMI) as Hsp.
+  destruct (settle (fuel_for m) m) as [m'|m'|]; [|contradiction|discriminate].
+  injection Hs as <- <-. destruct Hsp as (_ & (_ & _ & _ & Hkeep) & _).
+  destruct (Hkeep u o Hk) as [H1|H1]; [exact H1|]. destruct Hc' as [? Hc']. congruence.
+Qed.
+
+(* histories with legal inputs: [legal_run], [run_reachable] of Props/C11_lemmas.v *)
+Theorem object_persists_run h : forall s s' os u o,
+  reachable s -> legal_run s h -> run s h = Done (s', os) -> objs s !! u = Some o ->
+  Forall (fun i => forall serial, i_ev i <> Message (o_owner o) (DestroyObject serial (o_cookie o))) h ->
+  alive_along (o_owner o) s h ->
+  objs s' !! u = Some o /\ reachable s'.
+Proof.
+  induction h as [|i rest IH]; intros s s' os u o Hr Hl Hrun Hu Hall Hal.
+  - cbn in Hrun. injection Hrun as <- _. auto.
+  - apply run_cons in Hrun as (s1 & o1 & os' & Hstep & Hrest & _). cbn [legal_run] in Hl. destruct Hl as [Hl1 Hl2].
+    specialize (Hl2 _ _ Hstep). apply Forall_cons in Hall as [Hi Hall]. cbn [alive_along] in Hal. rewrite Hstep in Hal.
+    destruct Hal as [Ha1 Hal].
+    assert (objs s1 !! u = Some o) as Hu1.
+    { eapply object_persists; try eassumption. unfold alive in Ha1. destruct (conns s1 !! o_owner o); [eauto|discriminate]. }
+    apply (IH s1 s' os' u o); try assumption. eapply reach_step; eassumption.
+Qed.
+
+(* observable form of "at most one live object per uuid": after an accepted CreateObject, as
+   long as the creator stays connected and does not destroy the object, every CreateObject for
+   the same uuid — from whichever connection — is answered Duplicate *)
+Theorem second_create_duplicate h s i1 c1 cs1 serial1 u s1 o1 s2 os c2 cs2 serial2 f b :
+  reachable s -> legal s i1 -> i_ev i1 = Message c1 (CreateObject serial1 u) ->
+  conns s !! c1 = Some cs1 -> cs_alive cs1 = true -> objs s !! u = None ->
+  step s (i_ev i1) (i_fresh i1) (i_bserial i1) = Done (s1, o1) ->
+  legal_run s1 h -> run s1 h = Done (s2, os) ->
+  Forall (fun i => forall serial, i_ev i <> Message c1 (DestroyObject serial (i_fresh i1))) h ->
+  alive_along c1 s1 h ->
+  conns s2 !! c2 = Some cs2 -> cs_alive cs2 = true ->
+  head o1 = Some (c1, CreateObjectReply serial1 (COOk (i_fresh i1)), None) /\
+  step s2 (Message c2 (CreateObject serial2 u)) f b =
+    Done (s2, [(c2, CreateObjectReply serial2 CODuplicate, None)]).
+Proof.
+  intros Hr Hl He Hc1 Ha1 Hu Hs1 Hlh Hrun Hall Hal Hc2 Ha2.
+  rewrite He in Hs1.
+  destruct (create_object_ok_strong s i1 c1 cs1 serial1 u s1 o1 Hr Hl He Hc1 Ha1 Hu Hs1) as (H1 & H2 & _).
+  split; [exact H1|].
+  assert (reachable s1) as Hr1 by (eapply reach_step; [exact Hr|exact Hl|]; rewrite He; exact Hs1).
+  destruct (object_persists_run h s1 s2 os u _ Hr1 Hlh Hrun H2 Hall Hal) as [H3 _].
+  eapply create_object_duplicate; eauto.
+Qed.
+
+(* ================================================================ disconnect *)
+(* a disconnect (reported by the connection, or requested through the handle) destroys exactly
+   what the connection owned *)
+Theorem disconnect_destroys s i c s' out :
+  reachable s -> legal s i -> i_ev i = ConnectionShutdown c \/ i_ev i = ShutdownConnection c ->
+  step s (i_ev i) (i_fresh i) (i_bserial i) = Done (s', out) ->
+  conns s' !! c = None /\
+  (forall u o, objs s !! u = Some o -> o_owner o = c -> objs s' !! u = None /\ forall su, svcs s' !! (u, su) = None) /\
+  (forall u o, objs s' !! u = Some o -> objs s !! u = Some o /\ o_owner o <> c) /\
+  (forall u o, objs s !! u = Some o -> o_owner o <> c -> is_Some (conns s' !! o_owner o) -> objs s' !! u = Some o) /\
+  (forall ou su sv, svcs s' !! (ou, su) = Some sv -> exists o, objs s' !! ou = Some o /\ o_owner o <> c).
+Proof.
+  intros Hr Hl He Hs. pose proof (reachable_inv s Hr) as HI.
+  assert (conns s' !! c = None) as Hc by (eapply shutdown_event_closes; eassumption).
+  assert (reachable s') as Hr' by (eapply reach_step; eassumption).
+  destruct (reach_disconnected_owns_nothing s' c Hr' Hc) as [Hno _].
+  assert (objs s' ⊆ objs s) as Hsub.
+  { destruct (legal_split _ _ Hl) as (L1 & L2 & L3).
+    destruct (handler_good s (i_ev i) (i_fresh i) (i_bserial i) HI L1 L2 L3) as (m & Hm & HMI).
+    assert (ms m = s) as Hms by (destruct He as [He|He]; rewrite He in Hm; injection Hm as <-; reflexivity).
+    pose proof Hs as Hs2. rewrite step_step_fuel in Hs2. unfold step_fuel in Hs2. rewrite Hm in Hs2.
+    pose proof (settle_spec (fuel_for m) m HMI) as Hsp.
+    destruct (settle (fuel_for m) m) as [m'|m'|]; [|contradiction|discriminate].
+    injection Hs2 as <- _. destruct Hsp as (_ & (Hsub & _) & _). rewrite Hms in Hsub. exact Hsub. }
+  pose proof (reach_registry s' Hr') as [Hreg _].
+  split; [exact Hc|]. split; [|split; [|split]].
+  - intros u o Hu Ho.
+    assert (objs s' !! u = None) as Hnone.
+    { destruct (objs s' !! u) as [o'|] eqn:E; [|reflexivity]. exfalso.
+      pose proof (lookup_weaken _ _ _ _ E Hsub) as E2. rewrite Hu in E2. injection E2 as <-. exact (Hno u o E Ho). }
+    split; [exact Hnone|]. intros su. destruct (svcs s' !! (u, su)) as [sv|] eqn:E; [|reflexivity].
+    destruct (Hreg _ _ _ E) as (o' & Ho' & _). congruence.
+  - intros u o Hu. split; [exact (lookup_weaken _ _ _ _ Hu Hsub)|exact (Hno u o Hu)].
+  - intros u o Hu Hne Hcon. apply (object_persists s i u o s' out Hr Hl Hu); [|exact Hs|exact Hcon].
+    intros serial Hev. destruct He as [He|He]; rewrite He in Hev; discriminate.
+  - intros ou su sv Hsv. destruct (Hreg _ _ _ Hsv) as (o & Ho & _). exists o. split; [exact Ho|exact (Hno ou o Ho)].
+Qed.
+
+(* the same over histories from the initial state *)
+Theorem disconnect_run h s1 os1 i c s' out :
+  legal_run init h -> run init h = Done (s1, os1) -> legal s1 i -> i_ev i = ConnectionShutdown c ->
+  step s1 (i_ev i) (i_fresh i) (i_bserial i) = Done (s', out) ->
+  conns s' !! c = None /\
+  (forall u o, objs s' !! u = Some o -> o_owner o <> c) /\
+  (forall ou su sv, svcs s' !! (ou, su) = Some sv -> exists o, objs s' !! ou = Some o /\ o_owner o <> c).
+Proof.
+  intros Hlh Hrun Hl He Hs.
+  assert (reachable s1) as Hr by (eapply run_reachable; [apply reach_init|exact Hlh|exact Hrun]).
+  destruct (disconnect_destroys s1 i c s' out Hr Hl (or_introl He) Hs) as (H1 & _ & H3 & _ & H5).
+  split; [exact H1|]. split; [|exact H5]. intros u o Hu. exact (proj2 (H3 u o Hu)).
+Qed.
+
+(* ================================================================ satisfiability, and a cascade *)
+Definition rin (e : event) (f : uuid) : input := {| i_ev := e; i_fresh := f; i_bserial := None |}.
+Definition rstate (h : list input) : state :=
+  match run init h with Done (s, _) | Fail (s, _) => s | Panic _ => init end.
+
+(* connection 1 (version 20) owns object 5 (cookie 8) *)
+Definition rh_obj : list input := [ rin (NewConnection 1 20) 7; rin (Message 1 (CreateObject 0 5)) 8 ].
+Definition rex_info : info := {| i_version := 3; i_type_id := None; i_sub_all := Some true |}.
+Definition rex_i : input := rin (Message 1 (CreateService2 1 8 6 (Some rex_info))) 9.
+
+Example create_service_sat :
+  let s := rstate rh_obj in
+  reachable s /\ legal s rex_i /\
+  conns s !! 1 = Some {| cs_ver := 20; cs_alive := true; cs_calls := ∅ |} /\
+  is_create_service {| cs_ver := 20; cs_alive := true; cs_calls := ∅ |} (CreateService2 1 8 6 (Some rex_info)) 1 8 6 rex_info /\
+  obj_by_cookie s 8 = Some (5, {| o_cookie := 8; o_owner := 1 |}) /\ svcs s !! (5, 6) = None /\
+  bus_quiet s (EvServiceCreated 5 8 6 9) /\
+  exists s' out, step s (i_ev rex_i) (i_fresh rex_i) (i_bserial rex_i) = Done (s', out).
+Proof.
+  cbv zeta.
+  assert (Hrun : run init rh_obj = Done (rstate rh_obj, [[]; [(1, CreateObjectReply 0 (COOk 8), None)]])) by (vm_compute; reflexivity).
+  split.
+  { eapply (run_reachable rh_obj init); [apply reach_init| |exact Hrun].
+    cbn [legal_run rh_obj]. split; [repeat split; done|]. intros s' o Hs.
+    assert (s' = rstate [rin (NewConnection 1 20) 7]) as -> by (vm_compute in Hs; injection Hs as <- _; vm_compute; reflexivity).
+    split; [|done]. split; [|repeat split; done]. vm_compute. intros Hin. set_solver. }
+  split; [split; [|repeat split; done]; vm_compute; intros Hin; set_solver|].
+  split; [vm_compute; reflexivity|]. split.
+  { right. exists rex_info. split; [reflexivity|]. split; [vm_compute; discriminate|reflexivity]. }
+  split; [vm_compute; reflexivity|]. split; [vm_compute; reflexivity|]. split.
+  { intros d cs Hin. vm_compute in Hin. by apply elem_of_nil in Hin. }
+  eexists _, _. vm_compute. reflexivity.
+Qed.
+
+(* why [bus_quiet] is needed for "every other entry is unchanged": connection 1 owns object 100 and
+   a started bus listener for all objects, and has dropped its receiver; connection 2 creates
+   object 200: the ObjectCreated event cannot be delivered to 1, so 1 is removed and its object 100
+   is destroyed — in the step that handles 2's CreateObject.  (2's object is stored, 2 is answered.) *)
+Definition rh_cascade : list input := [
+  rin (NewConnection 1 20) 0; rin (NewConnection 2 20) 0;
+  rin (Message 1 (CreateObject 0 100)) 1000;
+  rin (Message 1 (CreateBusListener 1)) 1001;
+  rin (Message 1 (AddBusListenerFilter 1001 (FObject None))) 0;
+  rin (Message 1 (StartBusListener 2 1001 SNew)) 0;
+  rin (DropTask 1) 0 ].
+
+Example create_cascade_run :
+  let s := rstate rh_cascade in
+  objs s !! 100 = Some {| o_cookie := 1000; o_owner := 1 |} /\
+  exists s', step s (Message 2 (CreateObject 5 200)) 2000 None =
+               Done (s', [(2, CreateObjectReply 5 (COOk 2000), None)]) /\
+             objs s' !! 100 = None /\ conns s' !! 1 = None /\
+             objs s' !! 200 = Some {| o_cookie := 2000; o_owner := 2 |}.
+Proof. cbv zeta. split; [vm_compute; reflexivity|]. eexists. split; [vm_compute; reflexivity|]. repeat split; vm_compute; reflexivity. Qed.
